@@ -1,5 +1,182 @@
 import FrappyModel.Spec.C19
-import FrappyModel.Generated.C19
+import FrappyModel.Small.DiscoveryTables
+/-
+Helper lemmas for C19: sizes of the UTF-8 / JSON encodings, the description loop `fit`,
+the length of a message, and the round trip through the Spec's readers.
+-/
 namespace Frappy.Discovery
+open Frappy.Spec.C19
+
+/-! ## sizes -/
+
+theorem utf8_append (a b : Str) : utf8 (a ++ b) = utf8 a ++ utf8 b := by
+  simp [utf8]
+
+theorem utf8_cons (c : Char) (s : Str) : utf8 (c :: s) = utf8Char c ++ utf8 s := by
+  simp [utf8]
+
+@[simp] theorem utf8_nil : utf8 [] = [] := rfl
+
+/-- bytes of the UTF-8 encoding of one character -/
+theorem utf8Char_length (c : Char) :
+    (utf8Char c).length = if c.toNat < 0x80 then 1 else if c.toNat < 0x800 then 2 else if c.toNat < 0x10000 then 3 else 4 := by
+  unfold utf8Char; split
+  · rfl
+  · split
+    · rfl
+    · split <;> rfl
+
+theorem hexDigit_ascii : ∀ k, k < 16 → (hexDigit k).toNat < 0x80 := by decide
+
+theorem utf8Char_hexDigit_length (k : Nat) (h : k < 16) : (utf8Char (hexDigit k)).length = 1 := by
+  rw [utf8Char_length, if_pos (hexDigit_ascii k h)]
+
+/-- the model's `len(json.dumps(char).encode()) - 2` is the Spec's `charSize` -/
+theorem escLen_eq_charSize (c : Char) : escLen c = charSize c := by
+  unfold escLen escapeChar charSize
+  by_cases h1 : c = '"'
+  · subst h1; decide
+  by_cases h2 : c = '\\'
+  · subst h2; decide
+  by_cases h3 : c = '\n'
+  · subst h3; decide
+  by_cases h4 : c = '\r'
+  · subst h4; decide
+  by_cases h5 : c = '\t'
+  · subst h5; decide
+  by_cases h6 : c = Char.ofNat 8
+  · subst h6; decide
+  by_cases h7 : c = Char.ofNat 12
+  · subst h7; decide
+  simp only [h1, h2, h3, h4, h5, h6, h7, if_false, or_self]
+  by_cases h8 : c.toNat < 0x20
+  · simp only [h8, if_true]
+    have ha : c.toNat / 16 < 16 := by omega
+    have hb : c.toNat % 16 < 16 := by omega
+    simp only [utf8_cons, utf8_nil, List.length_append, utf8Char_hexDigit_length _ ha, utf8Char_hexDigit_length _ hb]
+    have e1 : (utf8Char '\\').length = 1 := by decide
+    have e2 : (utf8Char 'u').length = 1 := by decide
+    have e3 : (utf8Char '0').length = 1 := by decide
+    simp only [e1, e2, e3, List.length_nil]
+  · simp only [h8, if_false, utf8_cons, utf8_nil, List.append_nil, utf8Char_length]
+
+theorem utf8_escape_length : ∀ s : Str, (utf8 (escape s)).length = strSize s
+  | [] => rfl
+  | c :: s => by
+    have := escLen_eq_charSize c
+    unfold escLen at this
+    simp only [escape, List.flatMap_cons, utf8_append, List.length_append, strSize]
+    rw [this]; congr 1; exact utf8_escape_length s
+
+theorem utf8_jsonStr_length (s : Str) : (utf8 (jsonStr s)).length = strSize s + 2 := by
+  have : (utf8Char '"').length = 1 := by decide
+  simp only [jsonStr, utf8_cons, utf8_append, List.length_append, utf8_escape_length, utf8_nil, List.length_nil, this]
+  omega
+
+theorem strSize_append : ∀ a b : Str, strSize (a ++ b) = strSize a + strSize b
+  | [], b => by simp [strSize]
+  | c :: a, b => by simp [strSize, strSize_append a b]; omega
+
+/-! ## decimal numbers -/
+
+theorem decimalFuel_length_le : ∀ (k f n : Nat), n < 10 ^ (k + 1) → (decimalFuel f n).length ≤ k + 1
+  | _, 0, _, _ => by simp [decimalFuel]
+  | 0, f + 1, n, h => by
+    have : n < 10 := by simpa using h
+    simp [decimalFuel, this]
+  | k + 1, f + 1, n, h => by
+    unfold decimalFuel; split
+    · simp
+    · have : n / 10 < 10 ^ (k + 1) := by
+        rw [Nat.pow_succ] at h; omega
+      have := decimalFuel_length_le k f (n / 10) this
+      simp; omega
+
+theorem digit_ascii (n : Nat) (h : n < 10) : (Char.ofNat (48 + n)).toNat = 48 + n := by
+  have : ∀ n, n < 10 → (Char.ofNat (48 + n)).toNat = 48 + n := by decide
+  exact this n h
+
+theorem utf8_decimalFuel_length : ∀ (f n : Nat), (utf8 (decimalFuel f n)).length = (decimalFuel f n).length
+  | 0, _ => by simp [decimalFuel]
+  | f + 1, n => by
+    unfold decimalFuel; split
+    · rename_i h
+      simp only [utf8_cons, utf8_nil, List.append_nil, List.length_singleton, utf8Char_length, digit_ascii n h]
+      rw [if_pos (by omega)]
+    · have h : n % 10 < 10 := by omega
+      simp only [utf8_append, utf8_cons, utf8_nil, List.length_append, utf8_decimalFuel_length f (n / 10),
+        List.append_nil, List.length_singleton, utf8Char_length, digit_ascii _ h]
+      rw [if_pos (by omega)]
+
+/-- a port number of at most 65535 takes at most five bytes -/
+theorem utf8_decimal_length_le (p : Nat) (h : p ≤ 65535) : (utf8 (decimal p)).length ≤ 5 := by
+  unfold decimal
+  rw [utf8_decimalFuel_length]
+  exact decimalFuel_length_le 4 _ p (by omega)
+
+/-! ## the description loop -/
+
+theorem fit_prefix : ∀ (a : Nat) (s : Str), fit a s <+: s
+  | _, [] => by simp [fit]
+  | a, c :: s => by
+    unfold fit; split
+    · exact List.prefix_cons_inj c |>.2 (fit_prefix _ s)
+    · exact List.nil_prefix
+
+theorem strSize_fit_le : ∀ (a : Nat) (s : Str), strSize (fit a s) ≤ a
+  | _, [] => by simp [fit, strSize]
+  | a, c :: s => by
+    unfold fit; split
+    · rename_i h
+      have := strSize_fit_le (a - escLen c) s
+      simp only [escLen_eq_charSize] at *
+      simp only [strSize]; omega
+    · simp [strSize]
+
+theorem fit_eq_self : ∀ (a : Nat) (s : Str), strSize s ≤ a → fit a s = s
+  | _, [], _ => by simp [fit]
+  | a, c :: s, h => by
+    simp only [strSize] at h
+    unfold fit
+    rw [if_pos (by rw [escLen_eq_charSize]; omega), fit_eq_self _ s (by rw [escLen_eq_charSize]; omega)]
+
+theorem fit_maximal : ∀ (a : Nat) (s : Str), fit a s = s ∨ a < strSize (s.take ((fit a s).length + 1))
+  | _, [] => by simp [fit]
+  | a, c :: s => by
+    unfold fit; split
+    · rename_i h
+      rcases fit_maximal (a - escLen c) s with h' | h'
+      · left; rw [h']
+      · right
+        simp only [escLen_eq_charSize] at *
+        simp only [List.length_cons, List.take_succ_cons, strSize]; omega
+    · rename_i h
+      right
+      rw [escLen_eq_charSize] at h
+      simp only [List.length_nil, Nat.zero_add, List.take_succ_cons, List.take_zero, strSize]; omega
+
+/-! ## length of a message built with the generated constants -/
+
+theorem gen_maxLen : generatedTables.maxLen = 508 := by decide
+theorem gen_budgetPort : generatedTables.budgetPort = 65535 := by decide
+theorem gen_fw (version : Str) : generatedTables.fwPrefix ++ version = firmwareOf version := rfl
+
+theorem utf8_decimal_budgetPort : (utf8 (decimal 65535)).length = 5 := by decide
+
+theorem message_length (id fw d : Str) (p : Nat) :
+    (message generatedTables id fw d p).length =
+      73 + (utf8 (decimal p)).length + strSize id + strSize fw + strSize d := by
+  have s0 : (utf8 generatedTables.seg0).length = 23 := by decide
+  have s1 : (utf8 generatedTables.seg1).length = 16 := by decide
+  have s2 : (utf8 generatedTables.seg2).length = 12 := by decide
+  have s3 : (utf8 generatedTables.seg3).length = 15 := by decide
+  have s4 : (utf8 generatedTables.seg4).length = 1 := by decide
+  simp only [message, messageText, utf8_append, List.length_append, utf8_jsonStr_length, s0, s1, s2, s3, s4]
+  omega
+
+theorem baseLen_eq (id fw : Str) : baseLen generatedTables id fw = 78 + strSize id + strSize fw := by
+  unfold baseLen
+  rw [message_length, gen_budgetPort, utf8_decimal_budgetPort]
+  simp [strSize]
 
 end Frappy.Discovery
